@@ -180,10 +180,11 @@ def check_case(case, ctx):
     ctx.mon("values.exact")
     exp = {}
     for idx, typ, ln, val in ref:
+        # a value shorter than the type's width is still a big-endian unsigned number: the bytes that are there, not shifted
         if typ == 1:
-            v = ("int16", int.from_bytes(val, "big")) if ln == 2 else ("int?", None)
+            v = ("int16", int.from_bytes(val, "big")) if ln <= 2 else ("int?", None)
         elif typ == 2:
-            v = ("int32", int.from_bytes(val, "big")) if ln == 4 else ("int?", None)
+            v = ("int32", int.from_bytes(val, "big")) if ln <= 4 else ("int?", None)
         else:
             v = ("bytes", val)
         exp[idx] = (v, typ, val)
